@@ -412,7 +412,14 @@ def _idset_size(fb, R, rec, fns, T, data_f, size_f):
                 for r in rets:
                     v = fn.const_value(r['sub'])
                     onflip = path_search(fn, n['id'], lambda e: e == r['id'], lambda e: False) is not None
-                    good = good and v is not None and (v == 1) == onflip
+                    if v is None:
+                        # `return was_unset;`: the returned local is the very test that guards the flip (true <=> flipped)
+                        x = U.scn(fn, r['sub'])
+                        named = x is not None and x.get('k') == 'var' and x.get('vk') == 'local' and x['d'] not in U.assigned_vars(fn) \
+                            and any(s and (U.scn(fn, c) or {}).get('k') == 'var' and U.scn(fn, c).get('d') == x['d'] for (c, s, b, o) in U.guards(fn, n['id']))
+                        good = good and named
+                        continue
+                    good = good and (v == 1) == onflip
                 R.check(good, rule, fn.q + '#returns-true-exactly-on-flip', site, '%s must return true exactly on the path that flips the bit' % fn.q)
         if incs and not any(n.get('k') == 'assign' and n.get('op') in ('|=', '&=') for n in fn.all_nodes()):
             R.bad(rule, '%s#%s' % (fn.q, size_f), fn.loc(incs[0]['id']), '%s changes %s without flipping a bit' % (fn.q, size_f))
@@ -434,19 +441,22 @@ def _idset_copy(fb, R, rec, fns, T, data_f, size_f):
         R.broken('%s: copy constructor not instantiated' % rec.full)
     for fn in copies:
         key = fn.q + '(copy)'
-        loops = [x for x in U.range_for_loops(fn) if x[1] is not None and x[2] is not None]
-        ok = len(loops) == 1
-        msg = 'no range-for over the chunk vector of the source'
+        lps = []
+        for lp in U.element_loops(fb, fn):
+            fp = U._field_path(fn, lp['cont'])
+            if fp is not None and fp[0] == ('param', 0) and fp[1] == (data_f,):
+                lps.append(lp)
+        ok = len(lps) == 1
+        msg = 'no loop over the whole chunk vector of the source'
         if ok:
-            (l, cb, rng, var) = loops[0]
-            fp = U._field_path(fn, rng)
-            ok = fp is not None and fp[0] == ('param', 0) and fp[1] == (data_f,)
+            lp = lps[0]
+            l, cb = lp['loop'], lp['cb']
             emps = [n for n in fn.all_nodes() if n.get('k') == 'call' and n.get('q') in ('std::vector::emplace_back', 'std::vector::push_back')
                     and n.get('recv') is not None and fn.is_this_member(n['recv'], data_f) and fn.in_range(n['id'], l['b'], l['e'])]
             ids = {n['id'] for n in emps}
-            if ok:
-                ok = bool(emps) and not U.loop_skips(fn, cb, ids) and not U.loop_leaks(fn, cb)
-                msg = 'an iteration can finish without appending a slot (chunk numbers of the copy would shift)'
+            why = U.loop_complete(fn, lp, ids) if emps else 'no slot is appended in the loop'
+            ok = why is None
+            msg = (why or '') + ' (an iteration that appends no slot shifts the chunk numbers of the copy)'
             if ok:
                 twice = any(path_search(fn, e, lambda x: x in ids, lambda x: False, lambda b, i, s: b != cb['id']) is not None for e in ids)
                 ok = not twice
@@ -456,12 +466,11 @@ def _idset_copy(fb, R, rec, fns, T, data_f, size_f):
                 for e in emps:
                     alloc = any(fn.nodes[x].get('k') == 'new' for x in fn.subtree(e['id']))
                     tested = None
-                    for (c, s, b, o) in U.guards(fn, e['id']):
+                    for (c, s_, b_, o_) in U.guards(fn, e['id']):
                         x = U.scn(fn, c)
                         if x is not None and x.get('k') == 'call' and x.get('q') == 'std::unique_ptr::(conv)' and x.get('recv') is not None:
-                            rv = U.scn(fn, x['recv'])
-                            if rv is not None and rv.get('k') == 'var' and rv.get('d') == var:
-                                tested = s
+                            if U.alias_root(fn, x['recv']) == lp['root']:
+                                tested = s_
                     if tested is None or tested != alloc:
                         ok = False
                         msg = 'allocated / empty slot is not chosen by the source pointer test'
@@ -797,25 +806,27 @@ def relmap_rules(fb, R):
 
     # ---- R2 merge / flips visit every pair
     def complete_loop(fn, want_range, feeder):
-        """one range-for over want_range(expr id) whose every iteration passes a call accepted by feeder(call, loop var)."""
-        for (l, cb, rng, var) in U.range_for_loops(fn):
-            if cb is None or rng is None or var is None or not want_range(fn, rng):
+        """one whole-container loop (range-for / iterator / index form) over want_range(expr id) whose every iteration passes a call
+        accepted by feeder(call, element root)."""
+        for lp in U.element_loops(fb, fn):
+            if not want_range(fn, lp['cont']):
                 continue
-            calls = [n for n in fn.all_nodes() if n.get('k') == 'call' and fn.in_range(n['id'], l['b'], l['e']) and feeder(fn, n, var)]
+            l = lp['loop']
+            calls = [n for n in fn.all_nodes() if n.get('k') == 'call' and fn.in_range(n['id'], l['b'], l['e']) and feeder(fn, n, lp['root'])]
             if not calls:
                 continue
-            ids = {n['id'] for n in calls}
-            if U.loop_skips(fn, cb, ids) or U.loop_leaks(fn, cb):
-                return None, 'an iteration can skip the transfer or leave the loop early'
-            return (l, cb, calls), None
-        return None, 'no range-for over the source map that transfers (key, value) of its loop variable'
+            why = U.loop_complete(fn, lp, {n['id'] for n in calls})
+            if why is not None:
+                return None, why
+            return (l, lp['cb'], calls), None
+        return None, 'no loop over the whole source map that transfers (key, value) of its element'
 
-    def fields_of(fn, call, var):
+    def fields_of(fn, call, root):
         a = call.get('args', [])
         if len(a) != 2:
             return None
         f0, f1 = U._field_path(fn, a[0]), U._field_path(fn, a[1])
-        if f0 is None or f1 is None or f0[0] != ('var', var) or f1[0] != ('var', var) or len(f0[1]) != 1 or len(f1[1]) != 1:
+        if f0 is None or f1 is None or f0[0] != root or f1[0] != root or len(f0[1]) != 1 or len(f1[1]) != 1:
             return None
         return f0[1][0], f1[1][0]
     kv = None
@@ -1015,11 +1026,11 @@ def relmap_rules(fb, R):
         adds = [n for n in fn.all_nodes() if n.get('k') == 'call' and n.get('q') == STASH + '::add' and len(n.get('args', [])) == 2]
         ok = len(adds) == 1
         if ok:
-            loops = U.range_for_loops(fn)
-            var = loops[0][3] if loops else None
-            a0 = fn.root_var(adds[0]['args'][0])
-            a1 = fn.root_var(adds[0]['args'][1])
-            ok = var is not None and a0 is not None and a0[:2] == ('var', var) and a1 is not None and a1[0] == 'var' and fn.params and a1[1] == fn.params[0]['d']
+            lps = [lp for lp in U.element_loops(fb, fn) if fn.in_range(adds[0]['id'], lp['loop']['b'], lp['loop']['e'])]
+            root = lps[0]['root'] if lps else None
+            a0 = U.alias_root(fn, adds[0]['args'][0])
+            a1 = U.alias_root(fn, adds[0]['args'][1])
+            ok = root is not None and a0 == root and a1 == ('param', 0) and U.loop_leaks(fn, lps[0]['cb']) is False
             typed = any(any(fn.nodes[x].get('q', '').endswith('item_type::relation') for x in fn.subtree(c)) and s for (c, s, b, o) in U.guards(fn, adds[0]['id']))
             ok = ok and typed
         R.check(ok, r4, fn.q + '#records-member-then-parent', fn.site,
@@ -1095,8 +1106,20 @@ def itemstash_rules(fb, R):
         R.check(ok, r1, key + '#index-slot-gets-sentinel', fn.site,
                 'remove_item must overwrite the index slot with removed_item_offset after using it (garbage collection matches live slots by offset)')
         for (name, op, sub) in ((live, '--', 'live-count-decremented'), (removed, '++', 'removed-count-incremented')):
-            ops = counter_ops(fn, name)
-            ok = len(ops) == 1 and ops[0].get('k') == 'unop' and ops[0]['op'] == op and U.must_pass(fn, fn.entry, [ops[0]['id']]) is None
+            # the update may sit in a helper of the class that performs it exactly once on every path
+            sites = []      # (node id in fn, number of updates it stands for, all of the right kind)
+            for o_ in counter_ops(fn, name):
+                sites.append((o_['id'], 1, o_.get('k') == 'unop' and o_['op'] == op))
+            for c_ in fn.all_nodes():
+                if c_.get('k') == 'call' and c_.get('rcls') == ITEMSTASH and 'u' in c_ and (fn.sn(c_['recv']) or {}).get('k') == 'this' if c_.get('recv') is not None else False:
+                    g = U._callee_for(fb, fn, c_)
+                    if g is None or not g.has_cfg or g.id == fn.id:
+                        continue
+                    inner = counter_ops(g, name)
+                    if inner:
+                        once = len(inner) == 1 and U.must_pass(g, g.entry, [inner[0]['id']]) is None
+                        sites.append((c_['id'], 1 if once else 2, all(i.get('k') == 'unop' and i['op'] == op for i in inner)))
+            ok = len(sites) == 1 and sites[0][1] == 1 and sites[0][2] and U.must_pass(fn, fn.entry, [sites[0][0]]) is None
             R.check(ok, r1, '%s#%s' % (key, sub), fn.site, 'remove_item must %s %s exactly once on every path' % (op, name))
     if not byname.get('remove_item'):
         R.broken('ItemStash::remove_item not found')
@@ -1237,8 +1260,14 @@ def itemstash_rules(fb, R):
                 c = fn.sn(c['args'][0])
                 hops += 1
             a = U.scn(fn, c['args'][0]) if c is not None and c.get('k') == 'construct' and c.get('args') else None
+            anchor = a
+            if a is not None and a.get('k') == 'var' and a.get('vk') == 'local' and a['d'] not in U.assigned_vars(fn) and U.local_init(fn, a['d']) is not None:
+                # named local: the size is read where the local is initialised; nothing may be pushed between that and the return
+                a = U.scn(fn, U.local_init(fn, a['d']))
+                anchor = a
             ok = a is not None and a.get('k') == 'call' and a.get('q') == 'std::vector::size' and fn.is_this_member(a.get('recv'), idx_f) \
-                and fn.elem_dominates(pushes[0]['id'], a['id'])
+                and fn.elem_dominates(pushes[0]['id'], anchor['id']) \
+                and path_search(fn, anchor['id'], lambda e: e == pushes[0]['id'], lambda e: False) is None
         R.check(ok, r3, key + '#handle-is-index-size-after-push', fn.site, 'add_item must return handle_type{%s.size()} taken after the push (1-based slot number)' % idx_f)
         ops = counter_ops(fn, live)
         ok = len(ops) == 1 and ops[0].get('op') == '++' and U.must_pass(fn, fn.entry, [ops[0]['id']]) is None
